@@ -25,17 +25,25 @@ MASS_TAU = 1.77686
 def rand_grid(rng, fmt):
     ndim = int(rng.integers(1, 5))
     shape = tuple(int(x) for x in rng.integers(1, 6, ndim))
-    dt = [np.float64, np.float32, np.int32, np.int64][int(rng.integers(0, 4))]
+    dts = [np.float64, np.float32, np.int32, np.int64, np.int8, np.int16, np.uint8, np.uint16, np.uint32, np.uint64]
+    dt = dts[int(rng.integers(0, len(dts)))]
     if np.issubdtype(dt, np.integer):
-        data = rng.integers(-1000, 1000, shape).astype(dt)
+        info = np.iinfo(dt)
+        data = rng.integers(max(info.min, -1000), min(info.max, 1000), shape, endpoint=True).astype(dt)
+        if data.size > 1:
+            data.flat[0], data.flat[-1] = info.min, info.max        # the ends of the type's range
     else:
         data = rng.standard_normal(shape).astype(dt)
         if data.size:
             data.flat[0] = [0.0, -0.0, 1e-300 if dt == np.float64 else 1e-30, np.inf, np.nan][int(rng.integers(0, 5))]
     axes = []
     for n in shape:
-        adt = [np.float64, np.float32, np.int64][int(rng.integers(0, 3))]
-        axes.append(np.sort(rng.uniform(-10, 10, n)).astype(adt))
+        adts = [np.float64, np.float32, np.int64, np.int32, np.int16, np.int8, np.uint8, np.uint16, np.uint32, np.uint64]
+        adt = adts[int(rng.integers(0, len(adts)))]
+        if np.issubdtype(adt, np.unsignedinteger):
+            axes.append(np.sort(rng.uniform(0, 200, n)).astype(adt))
+        else:
+            axes.append(np.sort(rng.uniform(-100, 100, n)).astype(adt) if np.issubdtype(adt, np.integer) else np.sort(rng.uniform(-10, 10, n)).astype(adt))
     pool = ["log_e_nu", "beta_rad", "e_tau_frac", "a b", "A", "a", "x/y", "Zenith Angle (deg)", "énergie", "β", "n" * 30, "data", "AXIS0", "1", "  lead"]
     names = [str(x) for x in rng.choice(pool, ndim, replace=False)]
     return data, axes, names
